@@ -145,6 +145,9 @@ def stepProto (args : List String) : Option String :=
     let n ← natArg c
     let hd := (RecordHeader.new RT.stdin 1).setLengths n
     some s!"{hd.contentLength} {hd.paddingLength}"
+  | ["hdr.setlen2", c1, c2] => do
+    let hd := ((RecordHeader.new RT.stdout 1).setLengths (← natArg c1)).setLengths (← natArg c2)
+    some s!"{hd.contentLength} {hd.paddingLength}"
   | ["begin.dec", h] => do
     let bs ← bytesOfHex h
     match BeginRequest.fromBytes bs with
